@@ -5,7 +5,7 @@
     signatures as in Model/BlsTree.v. *)
 From Coq Require Import List NArith ZArith String Bool Permutation Sorted.
 From GV Require Import Base.Ints Base.GoBytes Model.SimpleProofBase Model.CombIndex Model.BlsFinal
-  Proofs.CombIndex Proofs.BlsFinalBase Proofs.BlsFinalSort Proofs.BlsFinal.
+  Proofs.CombIndex Proofs.BlsFinalBase Proofs.BlsFinalSort Proofs.BlsFinal Proofs.BlsFinalMask.
 Import ListNotations.
 Local Open Scope N_scope.
 
@@ -28,6 +28,22 @@ Theorem C13BlsFinal_finalize_validate_roundtrip : forall n main rest hashes hf,
     Ok (Some (map (hash_entry hf) (main :: filter nonempty sorted)), true).
 Proof. exact finalize_validate_roundtrip. Qed.
 Print Assumptions C13BlsFinal_finalize_validate_roundtrip.
+
+(** The same on the proof objects' bit masks (what SignatureBitSet returns): every SigBits below n, main not
+    empty, no key index in two of the bit sets. *)
+Theorem C13BlsFinal_finalize_validate_roundtrip_masks : forall n main rest hashes hf,
+  (0 <= n < 65536)%Z ->
+  Forall (fun p => below n (fp_bits p)) (main :: rest) ->
+  fp_bits main <> 0 ->
+  NoDup (List.concat (map (fun p => positions n (fp_bits p)) (main :: rest))) ->
+  NoDup (map fp_msg (main :: rest)) ->
+  (forall p, In p (main :: rest) -> alist_find (fp_msg p) hashes = Some (hf (fp_msg p))) ->
+  NoDup (map (fun p => hf (fp_msg p)) (main :: rest)) ->
+  exists sorted, Permutation sorted rest /\ StronglySorted blt sorted /\
+    finalize_validate n main rest hashes =
+    Ok (Some (map (fun p => (hf (fp_msg p), fp_bits p)) (main :: filter (fun p => negb (fp_bits p =? 0)) sorted)), true).
+Proof. exact finalize_validate_roundtrip_masks. Qed.
+Print Assumptions C13BlsFinal_finalize_validate_roundtrip_masks.
 
 (** The other half of "the all-unique flag is true iff the blocks are pairwise disjoint": the real code cannot
     represent a double signer in the reduced key space.  Whenever some validator signed two of the blocks,
